@@ -4528,14 +4528,15 @@ class LocationMatcher(SectionMatcher):
         )
         # Sections mentioning 'ignore_parents' restrict the selection
         for _, section in sections:
+            # The section itself is always searched: 'ignore_parents' only
+            # hides the less specific sections (as LocationConfig does).
+            yield self.store, section
             # FIXME: We really want to use as_bool below -- vila 2011-04-07
             ignore = section.get("ignore_parents", None)
             if ignore is not None:
                 ignore = ui.bool_from_string(ignore)
             if ignore:
                 break
-            # Finally, we have a valid section
-            yield self.store, section
 
 
 # FIXME: _shared_stores should be an attribute of a library state once a
